@@ -261,8 +261,9 @@ def run(ctx):
              min_sites=8)
     ctx.rule("E3", "every parameter that changes the hardware decode (data width, alignment, paging, address width, ordering) "
                    "reaches the export side", min_sites=5)
-    ctx.rule("E4", "memory images: endianness table {little:'<I', big:'>I'}, zero padding to bytes_per_data, index "
-                   "(base-offset)//bytes_per_data + i, 32-bit sub-words placed at their byte offset", min_sites=5)
+    ctx.rule("E4", "memory images: get_mem_data interpreted (lxs/pyconst.py) on a model file system -- 12 region sets x data width 32/64 x "
+                   "both endiannesses -- and compared word by word with the image the statement describes: byte order per 32-bit sub-word, "
+                   "index (base-offset)//bytes_per_data + i, zero-padded tail, sub-word k at bit 32k", min_sites=5)
     ctx.rule("E6", "CSR memory window (csr_bus.SRAM): the sub-word written at index i lands in the chunk of the memory word that the "
                    "read-side chooser returns for index i (writer's and reader's order agree); last sub-word triggers the write; "
                    "memory address = bus address above the sub-word bits", min_sites=6)
@@ -415,6 +416,47 @@ def run(ctx):
     ok = len(rec) == 2 and all("mapaddr" in r for r in rec)
     ctx.ob("E2", CSRBUS, "CSRBankArray.scan", "published tuples carry mapaddr", ok, "" if ok else f"{rec}", scan)
 
+    # ============================================================ E11 bus stride of one CSR word, for every supported CSR data width
+    ctx.rule("E11", "a CSR word occupies alignment//8 bytes of the bus address space for every supported CSR data width: the bridge maps "
+                    "one word of its bus-side interface to one CSR word, so that interface must be alignment bits wide (the bus adapter "
+                    "in front of a narrower bridge spreads one CSR word per data_width//8 bytes, the exporters publish alignment//8)",
+             min_sites=2)
+    bridge_dw = None
+    for n in ast.walk(fb):
+        if isinstance(n, ast.Call) and norm(n.func) == "csr_bridge_cls" and n.args and isinstance(n.args[0], ast.Call) and \
+                norm(n.args[0].func) == "bus_bridge_cls":
+            for k in n.args[0].keywords:
+                if k.arg == "data_width":
+                    bridge_dw = k.value
+    if isinstance(bridge_dw, ast.Name):
+        nm_ = bridge_dw.id
+        for n in ast.walk(fb):
+            if isinstance(n, ast.Assign) and len(n.targets) == 1 and norm(n.targets[0]) == nm_:
+                bridge_dw = n.value
+    ctx.need(bridge_dw is not None, "add_csr_bridge: the bus-side interface of the bridge is no longer built with an explicit data_width")
+    hcls = soc.cls("SoCCSRHandler")
+    sup = {}
+    for st in hcls.body:
+        if isinstance(st, ast.Assign) and norm(st.targets[0]) in ("supported_data_width", "supported_alignment"):
+            try:
+                sup[norm(st.targets[0])] = list(const_fold(st.value))
+            except (ValueError, TypeError):
+                pass
+    ctx.need(set(sup) == {"supported_data_width", "supported_alignment"}, "SoCCSRHandler: supported_data_width / supported_alignment are no longer literal lists")
+    from .. import pyconst as _pc
+    for cdw in sup["supported_data_width"]:
+        bad = None
+        for al in sup["supported_alignment"]:
+            for bus_dw in (32, 64):
+                env = {"self": _pc.NS(csr=_pc.NS(data_width=cdw, alignment=al), bus=_pc.NS(data_width=bus_dw))}
+                try:
+                    w = _pc.Interp(env).ev(bridge_dw)
+                except Exception as ex:     # noqa
+                    w = f"? ({ex})"
+                if w != al and bad is None:
+                    bad = (f"csr data width {cdw}, alignment {al}, bus {bus_dw} bits: the bridge's bus side is built {w} bits wide, register k "
+                           f"answers at byte offset k*{w // 8 if isinstance(w, int) else '?'} while the exporters publish k*{al // 8}")
+        ctx.ob("E11", SOC, "SoC.add_csr_bridge", f"csr data width {cdw}: one CSR word per alignment//8 bytes on the bus", bad is None, bad or "", fb)
     # ============================================================ E3
     # alignment: exported constant read by the exporters
     cfgs = [norm(n) for n in ast.walk(fb) if isinstance(n, ast.Call) and norm(n.func) == "self.add_config"]
@@ -447,32 +489,82 @@ def run(ctx):
     ctx.ob("E3", SOC, "SoC.finalize", "bank array built with the handler's data width, paging and ordering", ok,
            "" if ok else "CSRBankArray parameters do not come from the CSR handler", fin)
 
-    # ============================================================ E4
+    # ============================================================ E4 (by value: get_mem_data interpreted on a model file system)
+    import struct as _struct
+    import math as _math
+    from .. import pyconst as _pc4
     cm = ctx.mod(COMMON)
     gm = cm.func("get_mem_data")
-    tabs = [n for n in ast.walk(gm) if isinstance(n, ast.Dict)]
-    ok = False
-    for t in tabs:
-        try:
-            d = const_fold(t)
-        except ValueError:
-            continue
-        if d == {"little": "<I", "big": ">I"}:
-            ok = True
-    ctx.ob("E4", COMMON, "get_mem_data", "endianness table {little:'<I', big:'>I'}", ok, "" if ok else "unpack order table changed", gm)
-    idx = {norm(n.slice) for n in ast.walk(gm) if isinstance(n, ast.Subscript) and norm(n.value) == "data" and
-           isinstance(n.ctx, ast.Store)}
-    ok = idx == {"(base - offset) // bytes_per_data + i"}
-    ctx.ob("E4", COMMON, "get_mem_data", "word index = (base - offset)//bytes_per_data + i", ok, "" if ok else f"{idx}", gm)
-    ok = any(isinstance(n, ast.Assign) and norm(n.targets[0]) == "bytes_per_data" and norm(n.value) == "data_width // 8" for n in ast.walk(gm))
-    ctx.ob("E4", COMMON, "get_mem_data", "bytes_per_data = data_width // 8", ok, "" if ok else "bytes_per_data changed", gm)
-    pad = [n for n in ast.walk(gm) if isinstance(n, ast.AugAssign) and norm(n.target) == "w" and norm(n.value) == "b'\\x00'"]
-    ok = len(pad) == 1
-    ctx.ob("E4", COMMON, "get_mem_data", "short tail zero-padded to a full word", ok, "" if ok else "tail padding changed", gm)
-    sh = [norm(n) for n in ast.walk(gm) if isinstance(n, ast.BinOp) and isinstance(n.op, ast.LShift)]
-    ok = any(s.endswith("<< filled_data_width") and "w[cur_byte:cur_byte + 4]" in s for s in sh) and \
-        any(isinstance(n, ast.Assign) and norm(n.targets[0]) == "cur_byte" and norm(n.value) == "filled_data_width // 8" for n in ast.walk(gm))
-    ctx.ob("E4", COMMON, "get_mem_data", "32-bit sub-word k placed at bit 32k from bytes 4k..4k+3", ok, "" if ok else f"{sh}", gm)
+    funcs4 = {f.name: f for f in cm.tree.body if isinstance(f, ast.FunctionDef)}
+    fs = {"a.bin": bytes(range(1, 11)), "b.bin": bytes([0xaa, 0xbb, 0xcc]), "c.bin": bytes(range(0x80, 0x80 + 17)), "d.bin": bytes([0x5a] * 8)}
+    bad = {"order": None, "index": None, "pad": None, "sub": None, "len": None}
+    n_ev = 0
+    unknow = []
+    for dw in (32, 64):
+        for endian in ("little", "big"):
+            for offset, regions in ((0, {"a.bin": "0x0", "b.bin": "0x10"}), (0x20, {"c.bin": "0x20", "d.bin": "0x40"}), (0, {"d.bin": "0x8"})):
+                def mk_open(name, mode="r"):
+                    pos = [0]
+
+                    def read(n):
+                        d = fs[name][pos[0]:pos[0] + n]
+                        pos[0] += n
+                        return d
+                    return _pc4.NS(read=_pc4.Native(read), close=_pc4.Native(lambda: None))
+                consts4 = {"os": _pc4.NS(path=_pc4.NS(isfile=_pc4.Native(lambda f: f in fs), getsize=_pc4.Native(lambda f: len(fs[f])))),
+                           "open": _pc4.Native(mk_open), "struct": _pc4.NS(unpack=_pc4.Native(_struct.unpack)),
+                           "math": _pc4.NS(ceil=_pc4.Native(_math.ceil))}
+                try:
+                    kind, got = _pc4.call(gm, {"filename_or_regions": dict(regions), "data_width": dw, "endianness": endian, "mem_size": None,
+                                               "offset": offset}, consts=consts4, funcs=funcs4)
+                except Exception as ex4:     # noqa
+                    unknow.append(f"data_width={dw}, {endian}, offset={offset:#x}, regions {regions}: {type(ex4).__name__}: {ex4}")
+                    n_ev += 1
+                    continue
+                n_ev += 1
+                tag = f"data_width={dw}, {endian}, offset={offset:#x}, regions {regions}"
+                if kind != "return" or not isinstance(got, list):
+                    bad["len"] = bad["len"] or f"{tag}: {kind}"
+                    continue
+                bpd = dw // 8
+                size = max(int(b_, 16) + len(fs[f_]) - offset for f_, b_ in regions.items())
+                want = [0] * _math.ceil(size / bpd)
+                first_of = {}
+                for f_, b_ in regions.items():
+                    data_ = fs[f_]
+                    for i in range(0, len(data_), bpd):
+                        chunk = data_[i:i + bpd] + bytes(bpd - len(data_[i:i + bpd]))
+                        v = 0
+                        for k in range(bpd // 4):
+                            v |= int.from_bytes(chunk[4 * k:4 * k + 4], "little" if endian == "little" else "big") << (32 * k)
+                        want[(int(b_, 16) - offset) // bpd + i // bpd] = v
+                        first_of.setdefault(f_, (int(b_, 16) - offset) // bpd)
+                if len(got) != len(want):
+                    bad["len"] = bad["len"] or f"{tag}: image of {len(got)} words, expected {len(want)}"
+                    continue
+                if got == want:
+                    continue
+                k = next(i for i in range(len(want)) if got[i] != want[i])
+                msg = f"{tag}: word {k} is {got[k]:#x}, expected {want[k]:#x}"
+                if sorted(got) == sorted(want):
+                    bad["index"] = bad["index"] or msg + " (the words are there but at other indices)"
+                elif want[k] and got[k] == int.from_bytes(want[k].to_bytes(bpd, "little"), "big"):
+                    bad["order"] = bad["order"] or msg + " (byte order)"
+                elif k in [first_of[f_] + (len(fs[f_]) - 1) // bpd for f_ in regions] and len(fs[[f_ for f_ in regions][0]]) % bpd:
+                    bad["pad"] = bad["pad"] or msg + " (short tail of a file)"
+                else:
+                    bad["sub"] = bad["sub"] or msg
+    # a run the interpreter cannot finish on some inputs only (a store outside the image, ...) is a misplaced word, not an analysis limit
+    ctx.need(len(unknow) < n_ev, f"get_mem_data cannot be interpreted on a model file system ({unknow[0] if unknow else ''})")
+    if unknow:
+        bad["index"] = bad["index"] or f"{unknow[0]}: the image cannot be built (a word falls outside it)"
+    ctx.analysed["paths"] += n_ev
+    ctx.ob("E4", COMMON, "get_mem_data", "byte order follows the stated endianness (little: first byte = LSB of each 32-bit sub-word)", bad["order"] is None,
+           bad["order"] or "", gm)
+    ctx.ob("E4", COMMON, "get_mem_data", "word index = (base - offset)//bytes_per_data + i", bad["index"] is None, bad["index"] or "", gm)
+    ctx.ob("E4", COMMON, "get_mem_data", "image length = ceil(extent / bytes per word)", bad["len"] is None, bad["len"] or "", gm)
+    ctx.ob("E4", COMMON, "get_mem_data", "short tail zero-padded to a full word", bad["pad"] is None, bad["pad"] or "", gm)
+    ctx.ob("E4", COMMON, "get_mem_data", "32-bit sub-word k placed at bit 32k from bytes 4k..4k+3", bad["sub"] is None, bad["sub"] or "", gm)
 
     # ============================================================ E5
     rd = ex.func("_generate_csr_read_function_c")
@@ -709,7 +801,8 @@ def _e10(ctx):
     fxi = fx_of(ctx, CSRBUS, "InterconnectShared")
     fields = {}
     for a in fxi.find(domain="comb"):
-        if a.t.startswith("intermediate.") and a.v.startswith("Reduce("):
+        # <shared bus>.<field> <= Reduce("OR", ...), whatever the shared interface is called
+        if a.v.startswith("Reduce(") and a.t.count(".") == 1 and a.t.split(".", 1)[1] in ("adr", "re", "we", "dat_w"):
             fields[a.t.split(".", 1)[1]] = a
     ok = set(fields) == {"adr", "re", "we", "dat_w"} and all(a.v.startswith("Reduce('OR'") for a in fields.values())
     ctx.ob("E10", CSRBUS, "InterconnectShared", "adr, re, we, dat_w are the OR over all masters", ok, "" if ok else f"{sorted(fields)}",
